@@ -214,7 +214,15 @@ class Minimiser:
                 if self.gradtol:
                     # conjugate-gradient schemes with a gradient tolerance: the path on which convergence is reported has taken the branch
                     # `(sum(norm_g) < gradtol).all()` of the real check_convergence (an energy-only decision is not enough)
-                    tested = any(("meth.all" in str(c) or "all/" in str(c)) and "gradtol" in str(c) and not z3.is_not(c) for c in r.path.pc)
+                    # the decisive atom of the path condition has the SHAPE all(sum_over_k(norm_g) < gradtol): the gradient norm of a spin channel is the sum over
+                    # the k-points (the value the driver prints); all(norm_g < gradtol) - every k-point separately - is weaker
+                    import re as _re
+
+                    def _shape(c):
+                        t = _re.sub(r"\s+", "", str(c))
+                        return (not z3.is_not(c)) and "gradtol" in t and t.startswith("truthy/1(call/1(attr.all/1(lt/2(xp.sum[axis]/2(")
+
+                    tested = any(_shape(c) for c in r.path.pc)
                     goals.append(("converged with a gradient tolerance set => the gradient norms were below it", z3.BoolVal(bool(tested))))
             for label, g in goals:
                 v, model = check_valid(w, r.path.pc, g)
@@ -235,6 +243,55 @@ class Minimiser:
         ok, info = self.replay(wit)
         return Result(REFUTED, backend="z3", witness=wit, replayed=ok, replay_info=info, solver_output=str(model)[:1200],
                       detail=f"{self.name}: {msg} (counter-model Nit={wit.get('Nit')})")
+
+    @staticmethod
+    def replay_gradtol_multik(name, SCF, Atoms, M):
+        """Four k-points: a gradient tolerance between the largest single-k part and the sum over the k-points at an iteration whose energy change is
+        already below etol: convergence may only be reported when the SUM (the printed gradient norm of the spin channel) is below the tolerance."""
+        etol = 1e-6
+
+        def make(gradtol, et):
+            at = Atoms("He", [[0.0, 0.0, 0.0]], a=5, ecut=5)
+            at.kpts.kmesh = (2, 2, 1)
+            at.build()
+            return SCF(at, etol=et, gradtol=gradtol, opt={name: 60}, verbose="critical")
+
+        def recorded(scf):
+            traj = []
+
+            def condition(s_, method, Elist, linmin=None, cg=None, norm_g=None):
+                res = M.check_convergence(s_, method, Elist, linmin, cg, norm_g)
+                dE = abs(Elist[-1] - Elist[-2]) if len(Elist) > 1 else float("inf")
+                traj.append((len(Elist), dE, None if norm_g is None else np.array(np.asarray(norm_g), copy=True), res))
+                return res
+
+            try:
+                scf.run(condition=condition)
+            except Exception:  # noqa: BLE001
+                return []
+            return traj
+
+        out = []
+        cal = recorded(make(1e99, 1e-14))
+        tried = 0
+        for it, dE, ng, _ in cal:
+            if ng is None or dE >= etol or tried >= 4:
+                continue
+            single, total = float(ng.max()), float(ng.sum(axis=0).max())
+            if not (0 < single < 0.8 * total):
+                continue
+            tol = float(np.sqrt(single * total))
+            tried += 1
+            scf = make(tol, etol)
+            traj = recorded(scf)
+            if not traj or not scf.is_converged or traj[-1][2] is None:
+                continue
+            tot = traj[-1][2].sum(axis=0)
+            if (tot >= tol).any():
+                out.append(dict(kind="gradient tolerance", scheme=name, system="He, kmesh (2, 2, 1)", etol=etol, gradtol=tol, converged_at_iteration=traj[-1][0],
+                                gradient_norm_summed_over_k=[float(x) for x in tot], note="convergence reported although the gradient norm of the spin channel is not below gradtol"))
+                break
+        return out
 
     def replay(self, wit):
         """Native runs on He with counting cost: evaluations vs cap, flag vs last energy change, coherence of the stored state."""
@@ -270,6 +327,8 @@ class Minimiser:
             if scf.is_converged:
                 findings.append(dict(kind="gradient tolerance ignored", scheme="auto (steepest-descent fall-back step)", etol=1e-3, gradtol=1e-14,
                                      note="convergence reported after an energy change of 1e-9 although no gradient norm can be below 1e-14"))
+        if wit.get("gradtol") and name in ("cg", "pccg", "auto"):
+            findings += self.replay_gradtol_multik(name, SCF, Atoms, M)
         caps = sorted({int(wit.get("Nit", 3)), 1, 2, 3, 6, 40})
         for etol, gradtol in ((1.0, None), (1e-1, None), (1e-3, None), (1e-9, 1e-2 if wit.get("gradtol") else None)):
             for Nit in caps:
@@ -316,7 +375,7 @@ class Minimiser:
                     findings.append(dict(kind="evaluations", Nit=Nit, evaluations=count[0], note="cost reports a rising energy: every iteration takes the sd fall-back"))
         # only the findings that concern the clause of this obligation count as its replay (the double evaluation of `auto` is a finding of the
         # `evaluations` clause, not of the convergence clauses)
-        mine = {"evaluations": ("evaluations",), "convergence": ("flag", "coherence", "gradient tolerance ignored")}.get(self.clause)
+        mine = {"evaluations": ("evaluations",), "convergence": ("flag", "coherence", "gradient tolerance ignored", "gradient tolerance")}.get(self.clause)
         if mine:
             findings = [f for f in findings if f["kind"] in mine]
         return bool(findings), dict(check="He, ecut=5, a=8: counting cost wrapper, caps " + str(caps), violations=findings[:6])
